@@ -144,7 +144,7 @@ func buildFamilies() []family {
 			a, b, c := t3[x[2]], t3[x[1]], t3[x[0]]
 			return kase{sweepScript(so, a, b, c), so.o.String() + "|" + a.cls + "|" + b.cls + "|" + c.cls, so.o.String() + "(" + a.desc + ", " + b.desc + ", " + c.desc + ")"}
 		}},
-		{"ternr", ev.Pick(40000, 400000), func(i int) kase {
+		{"ternr", ev.Pick(40000, 2400000), func(i int) kase {
 			r := rng.New(uint64(i) + 3<<40)
 			so := tern[r.Intn(len(tern))]
 			pick := func() val {
@@ -171,19 +171,19 @@ func buildFamilies() []family {
 			}
 			return kase{sweepScript(so, a, b, c), so.o.String() + "|" + a.cls + "|" + b.cls + "|" + c.cls, so.o.String() + "(" + a.desc + ", " + b.desc + ", " + c.desc + ")"}
 		}},
-		{"splice", ev.Pick(40000, 200000), func(i int) kase {
+		{"splice", ev.Pick(40000, 1200000), func(i int) kase {
 			sc, what := spliceCase(rng.New(uint64(i)+4<<40), i)
 			return kase{sc, what + "|" + shape(sc), what}
 		}},
-		{"seq", ev.Pick(200000, 2500000), func(i int) kase {
+		{"seq", ev.Pick(200000, 15000000), func(i int) kase {
 			sc, names := genSeq(rng.New(uint64(i)+5<<40), intsBig)
 			return kase{sc, strings.Join(names, " "), "typed sequence"}
 		}},
-		{"compound", ev.Pick(50000, 500000), func(i int) kase {
+		{"compound", ev.Pick(50000, 3000000), func(i int) kase {
 			sc, names := genCompound(rng.New(uint64(i) + 6<<40))
 			return kase{sc, strings.Join(names, " "), "compound scenario"}
 		}},
-		{"ctl", ev.Pick(70000, 800000), func(i int) kase {
+		{"ctl", ev.Pick(70000, 5000000), func(i int) kase {
 			sc, names, mut := genCtl(rng.New(uint64(i) + 7<<40))
 			c := strings.Join(names, " ")
 			if mut {
@@ -207,7 +207,7 @@ func buildFamilies() []family {
 			sc, what := aliasCase(i)
 			return kase{sc, what, what}
 		}},
-		{"aliasr", ev.Pick(25000, 300000), func(i int) kase {
+		{"aliasr", ev.Pick(25000, 1800000), func(i int) kase {
 			sc, names := aliasRandom(rng.New(uint64(i) + 9<<40))
 			return kase{sc, names, "random derivation chain: " + names}
 		}},
@@ -227,7 +227,7 @@ func buildFamilies() []family {
 			sc, what := limitsCase(i)
 			return kase{sc, what, what}
 		}},
-		{"raw", ev.Pick(35000, 400000), func(i int) kase {
+		{"raw", ev.Pick(35000, 2400000), func(i int) kase {
 			sc := genRaw(rng.New(uint64(i)+8<<40), valid)
 			return kase{sc, shape(sc), "opcode soup"}
 		}},
